@@ -99,6 +99,7 @@ pub struct Action {
     pub period: Option<Duration>,
     pub resched: u64,
     pub origin: usize,
+    pub pend: bool,   // the future returns Pending on its first poll (a send that has to wait for mailbox space)
     pub env: Env,
 }
 #[derive(Clone)]
@@ -121,6 +122,7 @@ impl Action {
                     period: self.period,
                     resched: self.resched,
                     origin: self.origin,
+                    pend: self.pend,
                     env: self.env.clone(),
                 },
                 p,
@@ -128,31 +130,37 @@ impl Action {
         })
     }
     pub(crate) fn into_future(self) -> Pin<Box<dyn Future<Output = ()> + Send>> {
-        Box::pin(async move {
-            let now = self.env.time.read();
-            EXEC_LOG
-                .lock()
-                .unwrap()
-                .push((self.series, self.deadline.load(AtomicOrdering::Relaxed), now.0));
-            if self.resched > 0 {
+        let mut pending_left = self.pend as u8;
+        let mut this = Some(self);
+        Box::pin(std::future::poll_fn(move |_cx| {
+            if pending_left > 0 {
+                pending_left -= 1;
+                return Poll::Pending;
+            }
+            let a = this.take().expect("action future polled after completion");
+            let now = a.env.time.read();
+            EXEC_LOG.lock().unwrap().push((a.series, a.deadline.load(AtomicOrdering::Relaxed), now.0));
+            if a.resched > 0 {
                 // what GlobalScheduler::schedule_from does: validate against the time read under the lock
-                let mut q = self.env.queue.lock().unwrap();
-                let now = self.env.time.read();
-                let t = now + Duration::from_secs(self.resched);
+                let mut q = a.env.queue.lock().unwrap();
+                let now = a.env.time.read();
+                let t = now + Duration::from_secs(a.resched);
                 q.insert(
-                    (t, self.origin),
+                    (t, a.origin),
                     Action {
-                        series: self.series * 100 + 1,
+                        series: a.series * 100 + 1,
                         deadline: Arc::new(AtomicU64::new(t.0)),
                         cancelled: Arc::new(AtomicU64::new(0)),
                         period: None,
                         resched: 0,
-                        origin: self.origin,
-                        env: self.env.clone(),
+                        origin: a.origin,
+                        pend: false,
+                        env: a.env.clone(),
                     },
                 );
             }
-        })
+            Poll::Ready(())
+        }))
     }
     pub(crate) fn spawn_and_forget(self, executor: &Executor) {
         executor.spawn_and_forget(self.into_future())
@@ -250,7 +258,7 @@ impl ChannelObserver for FixedObserver {
 //@item src=nexosim/src/util/priority_queue.rs kind=impl name=`<K: Copy \+ Ord, V> PriorityQueue<K, V>` id=impl-PriorityQueue
 //@end
 use std::cmp::Ordering;
-use std::collections::BinaryHeap;
+use std::collections::*;
 
 //@item src=nexosim/src/util/seq_futures.rs kind=struct name=SeqFuture
 //@end
